@@ -37,6 +37,7 @@ type c07case struct {
 	BurstLen    int    `json:"err_burst_len"`
 	FillFail    int    `json:"build_fail_permille"`
 	WriteFail   int    `json:"write_fail_permille"`
+	TempWrites  bool   `json:"socket_like_write_errors"`
 	FillDelay   int    `json:"fill_delay_mode"`
 	WriteDelay  int    `json:"write_delay_mode"`
 	SlowDrain   bool   `json:"slow_error_consumer"`
@@ -85,6 +86,7 @@ func c07run(run *vlab.Run, c c07case) (obs c07obs) {
 	inner, link := rigFiller(c.Filler, c.Seed)
 	wrap := newWrapFiller(inner, c.Seed, c.FillFail, c.FillDelay, clock)
 	rw := newRecRW(link, c.Seed, c.WriteFail, c.WriteDelay, clock)
+	rw.tempKinds = c.TempWrites
 	src := scan.NewPacketSource(reqgen, scan.NewPacketMultiGenerator(wrap, c.W))
 	engine := scan.NewPacketEngine(src, packet.NewSender(rw), packet.NewReceiver(rw, nopProcessor{}))
 
@@ -149,17 +151,24 @@ func c07run(run *vlab.Run, c c07case) (obs c07obs) {
 	built := wrap.built
 	wrap.mu.Unlock()
 	rw.mu.Lock()
-	for _, e := range rw.werrs {
-		expErrs[e] = "write"
+	attErrs := map[error]uint32{}
+	for e, id := range rw.attErrs {
+		attErrs[e] = id
 	}
 	rw.mu.Unlock()
 
 	// ---- frames: written multiset == built multiset, byte for byte
-	seen := map[uint32]int{}
+	// (a frame counts as written when a write of it succeeded; a failed write is a failed write)
+	okWrites := map[uint32]int{}
+	failedWrites := map[uint32]int{}
 	sort.Slice(events, func(i, j int) bool { return events[i].seqCall < events[j].seqCall })
 	var order []uint32
 	for _, ev := range events {
-		seen[ev.id]++
+		if ev.err == nil {
+			okWrites[ev.id]++
+		} else {
+			failedWrites[ev.id]++
+		}
 		order = append(order, ev.id)
 		if ev.mutated {
 			run.Violation("buffer-reused-during-write", fmt.Sprintf("the buffer of frame %s changed while WritePacketData was in progress (pool recycled it too early): %+v", oracle.IPString(oracle.U32ToIP(ev.id)), c), c)
@@ -177,24 +186,39 @@ func c07run(run *vlab.Run, c c07case) (obs c07obs) {
 		}
 	}
 	for id := range expBuilt {
-		switch n := seen[id]; {
-		case n == 0:
+		switch n := okWrites[id]; {
+		case n == 0 && failedWrites[id] == 0:
 			run.Violation("frame-lost", fmt.Sprintf("frame for %s was built but never written (%d of %d frames reached the wire): %+v", oracle.IPString(oracle.U32ToIP(id)), len(events), len(expBuilt), c), c)
 		case n > 1:
 			run.Violation("frame-duplicated", fmt.Sprintf("frame for %s written %d times: %+v", oracle.IPString(oracle.U32ToIP(id)), n, c), c)
+		case n == 1 && failedWrites[id] > 0 && !c.TempWrites:
+			run.Violation("frame-duplicated", fmt.Sprintf("frame for %s written once and %d more writes of it failed: %+v", oracle.IPString(oracle.U32ToIP(id)), failedWrites[id], c), c)
 		}
 	}
 	if inflightAtDone != 0 || writesAtDone != len(events) {
 		run.Violation("done-before-last-write", fmt.Sprintf("when completion was observed %d writes were in flight and %d of %d writes had returned: %+v", inflightAtDone, writesAtDone, len(events), c), c)
 	}
-	// ---- errors: exactly one per failed request / build / write
+	// ---- errors: exactly one per failed request / build; for writes: a frame no write of which succeeded
+	// is reported at least once and at most once per failed write; a frame that was written in the end (a
+	// sender that retries) at most once per failed write
 	gotN := map[error]int{}
+	gotW := map[uint32]int{}
 	unknown := 0
 	for _, e := range got {
 		if _, ok := expErrs[e]; ok {
 			gotN[e]++
+		} else if id, ok := attErrs[e]; ok {
+			gotN[e]++
+			if gotN[e] == 1 {
+				gotW[id]++
+			}
 		} else {
 			unknown++
+		}
+	}
+	for e, n := range gotN {
+		if _, ok := attErrs[e]; ok && n > 1 {
+			run.Violation("error-duplicated:write", fmt.Sprintf("%q reported %d times on the error stream: %+v", e.Error(), n, c), c)
 		}
 	}
 	missing := 0
@@ -208,21 +232,33 @@ func c07run(run *vlab.Run, c c07case) (obs c07obs) {
 			run.Violation("error-duplicated:"+kind, fmt.Sprintf("%q reported %d times on the error stream: %+v", e.Error(), n, c), c)
 		}
 	}
-	if unknown != missing {
+	room := 0
+	for id, f := range failedWrites {
+		r := gotW[id]
+		if okWrites[id] == 0 && r == 0 {
+			missing++
+			missKind = "write"
+			room += f - 1
+		} else {
+			room += f - r
+		}
+	}
+	if unknown < missing {
 		// errors whose identity was changed by a stage are still one error each (C13 judges their text);
 		// only a count mismatch is a loss or a spurious error
-		if missing > unknown {
-			run.Violation("error-lost:"+missKind, fmt.Sprintf("%d failed requests/builds/writes produced no error (%d expected, %d received, %d of them unattributable): %+v", missing-unknown, len(expErrs), len(got), unknown, c), c)
-		} else {
-			run.Violation("error-spurious", fmt.Sprintf("%d errors on the error stream correspond to no failed request, build or write: %+v", unknown-missing, c), c)
-		}
+		run.Violation("error-lost:"+missKind, fmt.Sprintf("%d failed requests/builds/writes produced no error (%d received, %d of them unattributable; %d frames had a failed write): %+v", missing-unknown, len(got), unknown, len(failedWrites), c), c)
+	} else if unknown > missing+room {
+		run.Violation("error-spurious", fmt.Sprintf("%d errors on the error stream correspond to no failed request, build or write: %+v", unknown-missing-room, c), c)
 	}
 	// ---- what was observed
 	run.Count("frames_written", int64(len(events)))
 	run.Count("errors_received", int64(len(got)))
 	run.Count("request_errors", int64(len(gen.reqErrs)))
 	run.Count("build_errors", int64(len(wrap.fillErrs)))
-	run.Count("write_errors", int64(len(rw.werrs)))
+	run.Count("write_errors", int64(len(attErrs)))
+	if c.TempWrites {
+		run.Count("socket_like_write_errors", int64(len(attErrs)))
+	}
 	run.Max("max_parallel_builds", int64(wrap.maxInflight))
 	inv := 0
 	for i := 1; i < len(order); i++ {
@@ -265,6 +301,7 @@ func c07cases(run *vlab.Run) []c07case {
 			c.ErrPermille = 1 + rng.Intn(300)
 		case 2:
 			c.ErrPermille, c.FillFail, c.WriteFail = rng.Intn(100), rng.Intn(100), rng.Intn(100)
+			c.TempWrites = rng.Intn(2) == 0
 		case 3:
 			if c.N > 150 {
 				c.BurstAt, c.BurstLen = rng.Intn(c.N-120), 101+rng.Intn(150)
@@ -280,6 +317,8 @@ func c07cases(run *vlab.Run) []c07case {
 	cases = append(cases, c07case{N: 500, W: 8, Filler: "tcp", ErrPermille: 1000, BurstAt: -1, Seed: 5})
 	cases = append(cases, c07case{N: 500, W: 8, Filler: "udp", FillFail: 1000, BurstAt: -1, Seed: 6, SlowDrain: true})
 	cases = append(cases, c07case{N: 500, W: 3, Filler: "icmp", WriteFail: 1000, BurstAt: -1, Seed: 7, SlowDrain: true})
+	cases = append(cases, c07case{N: 500, W: 3, Filler: "tcp", WriteFail: 1000, TempWrites: true, BurstAt: -1, Seed: 8})
+	cases = append(cases, c07case{N: 300, W: 8, Filler: "udp", WriteFail: 300, TempWrites: true, BurstAt: -1, Seed: 9, SlowDrain: true})
 	return cases
 }
 
